@@ -72,6 +72,24 @@ class NameGen:
             return name
         raise RuntimeError('identifier space exhausted')
 
+    def variant(self, space: str, base: str):
+        """A name that differs from `base` only in the case of letters after the first one (ties under casefold /
+        lower-case sort keys), or None when no such variant is free."""
+        used = self.used.setdefault(space, set())
+        idxs = [i for i in range(1, len(base)) if base[i].isalpha()]
+        for _ in range(20):
+            if not idxs:
+                return None
+            chars = list(base)
+            for i in self.rng.sample(idxs, self.rng.between(1, min(3, len(idxs)))):
+                chars[i] = chars[i].swapcase()
+            name = ''.join(chars)
+            key = name[0].upper() + name[1:]
+            if name != base and key not in used and name not in CPP_KEYWORDS and name not in RESERVED:
+                used.add(key)
+                return name
+        return None
+
     def reserve(self, space: str, name: str):
         self.used.setdefault(space, set()).add(name[0].upper() + name[1:])
 
@@ -243,6 +261,15 @@ def _gen_spec(rng: Rng, want_mc, min_ports, profile, mc_triggers=False) -> dict:
     inj_itfs = rng.shuffle(interfaces)[:n_inj]   # one instance per type lives in a locator: distinct interfaces
     for itf in inj_itfs:
         ports.append({'name': pnames.ident('port'), 'dir': 'requires', 'itf': itf['ns'] + [itf['name']], 'injected': True})
+    if profile == 'many_ports':
+        # near-duplicate names: equal under casefold(), so that any sort key coarser than the name itself ties
+        for p in ports:
+            if rng.chance(35):
+                other = rng.choice(ports)
+                if other is not p and other['dir'] == p['dir'] and not (mc and p['name'] == mc.get('port')):
+                    v = pnames.variant('port', other['name'])
+                    if v:
+                        p['name'] = v
     ports = rng.shuffle(ports)
     comp = {'kind': rng.weighted([(3, 'component'), (2, 'system')]), 'ns': list(comp_ns),
             'name': comp_name, 'ports': ports}
